@@ -566,6 +566,17 @@ def gen_c08_order(tier, seed):
             d["caops"] = "a64,d"
         if rng.random() < 0.2:
             d["test"] = 1        # test mode takes the same timestamps, clears the same tallies and defers the same drops
+        elif rng.random() < 0.2:
+            # the sample size is tuned (several discarded rounds) and a thread allocates only in its first calls: what a retained
+            # sample reports must still be its own thread's operations in its own window
+            d.pop("s", None)
+            d["n"] = T
+            d["caonly"] = rng.choice([1, 2, 3])
+            d["camask"] = rng.choice([0, rng.randrange(1, (1 << T) - 1)])
+            d["cbase"] = rng.choice([3, 10])
+            for k in ("skew", "fpmask", "fpus"):
+                d.pop(k, None)
+            d["fpint"] = 0
         out.append(line(d))
     return out
 
@@ -658,6 +669,15 @@ def gen_c19(tier, seed):
             d["ishape"] = "s"
         if cost == 2 ** 32:
             d["max"] = 2000 * 10 ** 9 if d["freq"] == 10 ** 9 else 10 ** 9     # an exact multiple would double for ever
+        out.append(line(d))
+    # calls far cheaper than the precision, returning (or taking) values that have a size: the doubling must go on past 2^16 and
+    # 2^17 iterations, whatever the sample would have to keep until its end
+    base = N + 8
+    for k, (entry, ish, osh, q) in enumerate([(0, None, "s", 700), (2, "s", "s", 400)] + ([(1, None, "s", 1500), (0, None, "sd", 700), (4, "s", "z", 700), (3, "s", "c", 400)] if tier == "thorough" else [])):
+        d = {"id": base + k, "entry": entry, "T": 1, "n": 2, "q": q, "delta": 1, "freq": 10 ** 9, "cbase": 1, "seed": rng.randrange(1 << 20), "fplog": 0,
+             "oshape": osh, "_novos": k % 2 == 0}
+        if ish:
+            d["ishape"] = ish
         out.append(line(d))
     return out
 
